@@ -316,7 +316,7 @@ impl HistSc {
 // ---------------------------------------------------------------------------------------------
 
 const NUMS: [&str; 8] = ["0", "-0", "1", "1.0", "1e2", "10", "2", "-1.5E-3"];
-const STRS: [&str; 5] = ["", "a", "b", "a string that is longer than sixteen bytes", "é"];
+const STRS: [&str; 9] = ["", "a", "b", "a string that is longer than sixteen bytes", "é", "\u{ffff}", "\u{10ffff}", "\u{e000}", "\u{10e000}"];
 
 pub fn gen_v(rng: &mut Rng, depth: usize) -> V {
     match rng.below(if depth == 0 { 12 } else { 9 }) {
@@ -334,7 +334,22 @@ pub fn gen_universe(rng: &mut Rng, force_huge: Option<usize>) -> Vec<String> {
     // one run in forty: a huge universe (the raw table grows to 128..512 buckets)
     let huge = rng.chance(1, 40) || force_huge.is_some();
     let n = if let Some(n) = force_huge { n } else if huge { rng.urange(100, 400) } else if small { rng.urange(1, 3) } else { rng.urange(24, 48) };
-    let style = if huge { rng.below(2) } else { rng.below(4) };
+    let style = if huge { rng.below(2) } else { rng.below(5) };
+    if style == 4 {
+        // keys over boundary code points of the UTF-8 / UTF-16 encodings and over families of
+        // characters that share their low 16 bits across planes (truncating or plane-shifting
+        // comparisons collide there)
+        const BOUNDARY: [u32; 14] = [0x7f, 0x80, 0x7ff, 0x800, 0xd7ff, 0xe000, 0xfffd, 0xffff, 0x10000, 0x1ffff, 0xe0041, 0x10e000, 0x10fffd, 0x10ffff];
+        let base = 0xe000 + rng.below(0x2000) as u32;
+        let mut chars: Vec<char> = BOUNDARY.iter().filter_map(|c| char::from_u32(*c)).collect();
+        for p in [0u32, 1, 2, 15, 16] { if let Some(c) = char::from_u32(base % 0x10000 + p * 0x10000) { chars.push(c); } }
+        for p in [0u32, 16] { if let Some(c) = char::from_u32(0xffff - rng.below(4) as u32 + p * 0x10000) { chars.push(c); } }
+        let n = if small { rng.urange(2, 4) } else { rng.urange(8, 24) };
+        return (0..n).map(|i| {
+            let c = chars[rng.usize_below(chars.len())];
+            match i % 3 { 0 => c.to_string(), 1 => format!("k{}", c), _ => format!("{}{}", c, chars[rng.usize_below(chars.len())]) }
+        }).collect();
+    }
     (0..n).map(|i| match (style, i) {
         (_, 0) if rng.chance(1, 4) => String::new(),
         (0, _) => format!("k{}", i),
